@@ -83,7 +83,11 @@ add("C11", "metamorphic: hypothesis-generated configurations evaluated under a p
     "Phase order: toy binary scenarios with 2-3 phases run under a non-identity permutation of the phase list: same number of steps, same time grid and per-phase histories merely permuted. Element order: Ni-Cr-Al (gamma prime) and Al-Mg-Si (five phases) queries (driving force, nucleus composition, interdiffusivity, tracer diffusivity, curvature factors), Ni-Cr-Al / Fe-Cr-Ni per-phase mobilities, phase fractions, chemical potentials and all five homogenization rules, and short Ni-Cr-Al diffusion-couple runs, each with both solute orders.",
     "toy backend for phase order (deterministic); for the order/disorder gamma prime system driving force/compositions are compared at 5e-2 / 1e-2 (pycalphad's Newton path depends on the order of the conditions)")
 
-NOT_YET = {"C09": "only the composition-cache (HashTable) clause is built so far; thermodynamic query purity on the shipped databases is pending - claimed once complete"}
+add("C09", "model-based operation sequences: (a) HashTable operations against a list-of-stored-entries model, (b) query sequences on the shipped databases against a second, cache-free object of the same configuration (differential), with repeat and argument-immutability checks",
+    "HashTable: generated sequences of add/get/setHashSensitivity/enableCaching/clear around a base point with perturbations from 1e-9 to 437 K: nothing is returned while disabled, every returned value was stored for a point within one unit of the configured decimal place, exact repeats hit. Thermodynamic queries: generated sequences of driving-force, interfacial-composition / growth+interfacial-composition, interdiffusivity and tracer-diffusivity queries (scalar/array, removeCache on/off, temperature jumps, repeats, cache clears) on Al-Zr, Al-Mg-Si (five phases) and Ni-Cr-Al: each answer and each array element equals the answer of a cache-free object up to the documented 1 J/mol offset, repeats agree, arguments stay bit-identical.",
+    "offset-equivalence tolerance; on the order/disorder gamma prime system driving-force queries with retained cache are the region of open finding KF-C09-4 (explored by its own clause, matched by predicate)")
+
+NOT_YET = {}
 
 ALL = ["C%02d" % i for i in range(1, 21)]
 
